@@ -67,9 +67,30 @@ def _namespaces(fn: ast.FunctionDef) -> List[str]:
     return [e.value for e in t.elts]
 
 
+def _core_file_name() -> str:
+    """Parser.is_core_file(path): path.resolve() == <package dir>/core_defs/core_defs.yaml .resolve()"""
+    fn = find_func(load("parser.py"), "is_core_file", "Parser")
+    body = [s for s in fn.body if not (isinstance(s, ast.Expr) and isinstance(s.value, ast.Constant))]
+    if len(body) != 2 or _u(body[1]) != "return path.resolve() == core.resolve()":
+        raise TranslateError("is_core_file: not a comparison of resolved paths: " + " ; ".join(_u(b) for b in body))
+    a = body[0]
+    if not isinstance(a, ast.Assign) or _u(a.targets[0]) != "core":
+        raise TranslateError("is_core_file: core path assignment changed")
+    v = a.value            # ((pathlib.Path(os.path.realpath(__file__)).parent / 'core_defs') / 'core_defs.yaml')
+    if not (isinstance(v, ast.BinOp) and isinstance(v.op, ast.Div) and isinstance(v.right, ast.Constant)
+            and isinstance(v.left, ast.BinOp) and isinstance(v.left.op, ast.Div) and isinstance(v.left.right, ast.Constant)
+            and _u(v.left.left) == "pathlib.Path(os.path.realpath(__file__)).parent"):
+        raise TranslateError("is_core_file: core path is not <package dir>/<dir>/<file>: " + _u(v))
+    # Parser.parse reads the same file first when import_coredefs
+    pf = _u(find_func(load("parser.py"), "parse", "Parser"))
+    if f"pkg_dir / '{v.left.right.value}/{v.right.value}'" not in pf:
+        raise TranslateError("parse: the core file read first is not the one is_core_file names")
+    return v.right.value
+
+
 def _exempt(test: ast.expr, who: str) -> Tuple[str, str]:
-    """translate `self.current_file.name != "core_defs.yaml" [and value != 0] and self.import_coredefs`
-    returns (coq bool expr over is_core_name import_coredefs value, core file name)"""
+    """translate `not self.is_core_file(self.current_file) [and value != 0] and self.import_coredefs`
+    returns (coq bool expr over is_core_file import_coredefs value, core file name)"""
     if not (isinstance(test, ast.BoolOp) and isinstance(test.op, ast.And)):
         raise TranslateError(f"{who}: exemption test is not a conjunction: {_u(test)}")
     parts = []
@@ -77,11 +98,9 @@ def _exempt(test: ast.expr, who: str) -> Tuple[str, str]:
     seen_icd = False
     tr = ExprTr({"value": "value"})
     for c in test.values:
-        if isinstance(c, ast.Compare) and _u(c.left) == "self.current_file.name" and len(c.ops) == 1 \
-                and isinstance(c.ops[0], ast.NotEq) and isinstance(c.comparators[0], ast.Constant) \
-                and isinstance(c.comparators[0].value, str):
-            core = c.comparators[0].value
-            parts.append("(negb is_core_name)")
+        if _u(c) == "not self.is_core_file(self.current_file)":
+            core = _core_file_name()
+            parts.append("(negb is_core_file)")
         elif _u(c) == "self.import_coredefs":
             seen_icd = True
             parts.append("import_coredefs")
@@ -224,7 +243,11 @@ def _skeleton_checks():
     # check_name
     fn = find_func(tree, "check_name", "Parser")
     ifs = [s for s in fn.body if isinstance(s, ast.If)]
-    if len(ifs) != 2 or _u(ifs[0].test) != "name == '_RESERVED_'" or not isinstance(ifs[0].body[0], ast.Return) \
+    args = [a.arg for a in fn.args.args]
+    dflt = [_u(d) for d in fn.args.defaults]
+    if args != ["self", "name", "allow_reserved"] or dflt != ["False"]:
+        raise TranslateError(f"check_name signature changed: {args} {dflt}")
+    if len(ifs) != 2 or _u(ifs[0].test) != "allow_reserved and name == '_RESERVED_'" or not isinstance(ifs[0].body[0], ast.Return) \
             or _u(ifs[1].test) != "not name.startswith(tuple((c for c in string.ascii_letters)))" \
             or _single_raise(ifs[1].body, "check_name") != RTMA:
         raise TranslateError("check_name changed: " + " / ".join(_u(i.test) for i in ifs))
@@ -251,6 +274,9 @@ def _skeleton_checks():
                                                   "handle_signal", "validate_msg_id", "add_fields")]
     if calls != ["check_name", "check_duplicate_name", "handle_reserve", "handle_signal", "validate_msg_id", "add_fields"]:
         raise TranslateError(f"handle_message_def: order of checks changed: {calls}")
+    cn = [_u(n) for n in ast.walk(fn) if isinstance(n, ast.Call) and _u(n.func) == "self.check_name"]
+    if cn != ["self.check_name(name, allow_reserved=True)"]:
+        raise TranslateError(f"handle_message_def: check_name call changed: {cn}")
     res = [s for s in fn.body if isinstance(s, ast.If) and _u(s.test) == "name == '_RESERVED_'"]
     if len(res) != 1 or not isinstance(res[0].body[-1], ast.Return):
         raise TranslateError("handle_message_def: _RESERVED_ dispatch changed")
@@ -261,6 +287,9 @@ def _skeleton_checks():
         calls = [c for c in _self_calls(fn) if c in ("check_name", "check_duplicate_name")]
         if calls != ["check_name", "check_duplicate_name"]:
             raise TranslateError(f"{h}: name checks changed: {calls}")
+        cn = [_u(n) for n in ast.walk(fn) if isinstance(n, ast.Call) and _u(n.func) == "self.check_name"]
+        if cn not in (["self.check_name(name)"], ["self.check_name(alias)"]):
+            raise TranslateError(f"{h}: check_name must not allow the reserved directive: {cn}")
         dup_line = [n.lineno for n in ast.walk(fn) if isinstance(n, ast.Call) and isinstance(n.func, ast.Attribute)
                     and n.func.attr == "check_duplicate_name"][0]
         regs = [n.lineno for n in ast.walk(fn) if isinstance(n, ast.Assign)
@@ -309,10 +338,11 @@ def render() -> str:
            "Open Scope string_scope.", "Open Scope bool_scope.", "",
            "(* handle_host_id: `if <out_of_range>: if <enforced>: raise RTMASyntaxError` *)",
            f"Definition host_id_out_of_range (value : Z) : bool := {h_rng}.",
-           f"Definition host_id_range_enforced (is_core_name import_coredefs : bool) (value : Z) : bool := {h_ex}.",
+           f"Definition host_id_range_enforced (is_core_file import_coredefs : bool) (value : Z) : bool := {h_ex}.",
            "(* handle_module_id *)",
            f"Definition module_id_out_of_range (value : Z) : bool := {m_rng}.",
-           f"Definition module_id_range_enforced (is_core_name import_coredefs : bool) (value : Z) : bool := {m_ex}.",
+           f"Definition module_id_range_enforced (is_core_file import_coredefs : bool) (value : Z) : bool := {m_ex}.",
+           "(* is_core_file: the resolved path IS the core_defs.yaml shipped with the package (not: has that name) *)",
            f"Definition core_file_name : string := {coq_string(core1)}.",
            "(* validate_msg_id; MAX_MESSAGE_TYPES from core_defs.py *)",
            f"Definition max_message_types : Z := ({maxmt})%Z.",
